@@ -230,7 +230,7 @@ def handleDom (op : String) (args res : List Sexp) : Verdict :=
         | _ => throw (.bad s!"dom.hist op {i}: {o}"))
       let ctx := s!"dom.hist {dom} op#{i} {o}"
       -- C16: the other values of the pool must not have changed
-      if !oth then throw (.unsound s!"[C16] {ctx}: another value of the pool changed its exported meaning")
+      if !oth then throw (.unsound s!"[C16] {ctx}: another value of the pool changed its exported meaning, or the same history with copies made by the other mechanism (copy / move) or on the plain wrapped domain gives a different dump")
       -- C04: is_top / is_bottom right after set_to_top / set_to_bottom
       if kind == "top" && (!istop || isbot) then throw (.unsound s!"[C04] {ctx}: set_to_top then is_top={istop} is_bottom={isbot}")
       if kind == "bot" && !isbot then throw (.unsound s!"[C04] {ctx}: set_to_bottom then is_bottom=false")
